@@ -315,7 +315,7 @@ func (ex *Exec) initGlobal(gl *ssa.Global, l *Loc) {
 		l.V = ex.errIface(&ErrObj{Kind: "errors", Msg: "unexpected EOF"})
 		return
 	}
-	if strings.HasPrefix(path, ex.E.ModPath) {
+	if strings.HasPrefix(path, ex.E.ModPath) && !isGeneratedPBPkg(gl.Pkg) {
 		return // initialised by the package's init function
 	}
 	if strings.HasSuffix(gl.Name(), "init$guard") {
